@@ -7,7 +7,6 @@ From J5V.proofs Require Import ConcInvProofs.
 Import ListNotations.
 
 (* ---- a measure that every effective step decreases ----------------------------- *)
-Definition node_cost (g : graph) (n : name) : nat := 2 * length (refs g n) + 3.
 
 Definition unbound_cost (g : graph) (U : list name) (m : list (name * cellid)) : nat :=
   list_sum (map (fun n => match lookup m n with Some _ => 0 | None => node_cost g n end) U).
@@ -36,10 +35,6 @@ Definition thread_cost (th : thread) : nat :=
 Definition mu (g : graph) (U : list name) (st : state) : nat :=
   unbound_cost g U (cmap (s_sh st)) + list_sum (map thread_cost (s_thr st)).
 
-(* every name the machine can ever register *)
-Definition gnames (g : graph) : list name := flat_map (fun e => fst e :: snd e) g.
-Definition universe (g : graph) (calls : list (list name)) : list name :=
-  nodup N.eq_dec (concat calls ++ gnames g).
 
 Lemma refs_in_gnames g n m : In m (refs g n) -> In m (gnames g).
 Proof.
@@ -169,9 +164,6 @@ Qed.
 
 End Measure.
 
-(* thread t has a call to make and is not queued on the lock *)
-Definition can_step (st : state) (t : tid) : Prop :=
-  exists th n rest, nth_error (s_thr st) t = Some th /\ t_calls th = n :: rest /\ t_pc th <> PWait.
 
 Lemma gstep_stutter d k g t st : ~ can_step st t -> gstep d k g t st = st.
 Proof.
@@ -294,8 +286,6 @@ Qed.
 
 End Progress.
 
-(* a round schedules every thread at least once *)
-Definition covers (nt : nat) (round : list tid) : Prop := forall t, t < nt -> In t round.
 
 Lemma run_from_app d k g s1 s2 st :
   run_from d k g (s1 ++ s2) st = run_from d k g s2 (run_from d k g s1 st).
@@ -390,8 +380,6 @@ Qed.
 End Fair.
 
 (* ---- the bound, explicitly ---------------------------------------------------------- *)
-Definition fuel_bound (g : graph) (calls : list (list name)) : nat :=
-  list_sum (map (node_cost g) (universe g calls)) + 3 * length (concat calls).
 
 Lemma mu_init g calls : mu g (universe g calls) (init calls) = fuel_bound g calls.
 Proof.
